@@ -114,10 +114,10 @@ func init() {
 		assumptions: std,
 	}
 	props["C20"] = &propDef{
-		id: "C20", title: "Sequence-number unwrapping is congruent to its input (congruence clause only)",
-		explanation: "Decides one clause by abstract interpretation of (*Unwrapper).Unwrap's SSA: J1 — with symbols i (the uint16 input) and L (the previous result), every integer value is tracked as an affine form a·i + b·L + c over ℤ/2^16 (constants reduced modulo 65536, width conversions are class-preserving, φ joins must agree, branches are ignored so the clause holds on every path); at every return the result and the stored state are exactly 1·i + 0·L + 0. This proves for all inputs and all prior states that the value returned is congruent to the input modulo 2^16.",
-		notDecided:  "non-negativity, the ±2^15 proximity to the previous result (needs interval reasoning coupled to the half-range predicate), and every NTP clause (float64 rounding, monotonicity, 1 µs round trip) — numerical, not decidable by a structural rule",
-		sels:        []sel{s("J1")},
+		id: "C20", title: "Sequence-number unwrapping: congruence and non-negativity clauses",
+		explanation: "Decides one clause by abstract interpretation of (*Unwrapper).Unwrap's SSA: J1 — with symbols i (the uint16 input) and L (the previous result), every integer value is tracked as an affine form a·i + b·L + c over ℤ/2^16 (constants reduced modulo 65536, width conversions are class-preserving, φ joins must agree, branches are ignored so the clause holds on every path); at every return the result and the stored state are exactly 1·i + 0·L + 0. This proves for all inputs and all prior states that the value returned is congruent to the input modulo 2^16. J2 — by induction on the state (hypothesis: previous result ≥ 0): every path alternative of the stored state and of the returned value, written as an integer linear form over the previous state and the unsigned quantities, is a sum of non-negative terms or is guarded by a dominating `E >= 0` branch whose E is exactly that linear form; hence the result is non-negative for every input sequence.",
+		notDecided:  "the ±2^15 proximity to the previous result (needs interval reasoning coupled to the half-range predicate), and every NTP clause (float64 rounding, monotonicity, 1 µs round trip) — numerical, not decidable by a structural rule",
+		sels:        []sel{s("J1"), s("J2")},
 		assumptions: std,
 	}
 }
@@ -170,10 +170,10 @@ func init() {
 	}
 	props["C19"] = &propDef{
 		id: "C19", title: "Stream statistics equal a recount of the observed traffic (structural clauses)",
-		explanation: "Decides: S1 — every store into a field of the exported *StreamStats structs in the recorder's record* methods is dominated by a branch condition computed from the recorder's own SSRC (header SSRC, MediaSSRC, report SSRC or DestinationSSRC membership compared with r.ssrc): a counter only moves for traffic addressed to that SSRC; S2 — the loops over the packets of a compound RTCP have no early exit (every packet of the compound is visited); " +
+		explanation: "Decides: S1 — every store into a field of the exported *StreamStats structs in the recorder's record* methods is dominated by a branch condition computed from the recorder's own SSRC (header SSRC, MediaSSRC, report SSRC or DestinationSSRC membership compared with r.ssrc): a counter only moves for traffic addressed to that SSRC; S2 — the loops over the packets of a compound RTCP have no early exit (every packet of the compound is visited); S3 — no branch inside such a loop tests a loop-carried boolean that was computed from the recorder's SSRC for an earlier packet (each packet is judged by itself); " +
 			"A1/A2 on the four stats closures — every forwarded / successfully read packet is handed to the recorder exactly once and a failed read never is; C1/C6 — latestStats is only read and updated under recorder.ms in one critical section (no lost update).",
 		notDecided:  "every formula: packets lost as expected-minus-received, jitter, RTT from LSR/DLSR and DLRR, fraction lost, NTP conversions — numerical",
-		sels:        []sel{s("S1"), s("S2"), s("A1", `stats\.`), s("A2", `stats\.`), s("C1", `stats\.`), s("C6", `stats\.`)},
+		sels:        []sel{s("S1"), s("S2"), s("S3"), s("A1", `stats\.`), s("A2", `stats\.`), s("C1", `stats\.`), s("C6", `stats\.`)},
 		assumptions: std,
 	}
 }
